@@ -18,6 +18,8 @@ A case is a dict:
            {'kind': 'other_fn'}                              same Contest and cvrs objects, the other difficulty function
            {'kind': 'other_winner', winner}                  same objects, another reported winner
            {'kind': 'other_contest', winner, bp}             the second IRV contest 'c2' carried by the same cards (c2types)
+           {'kind': 'same_contest'|'same_dict', types, tot, winner, bp}   the SAME Contest object (and cvrs dict, refilled in
+                                                             place) first used with a different profile, total and winner
   c2types  ballot types of a second IRV contest 'c2' (same candidate ids) placed on the same cards
   rankrep  numeric representation of the rank positions in the CVR dicts (RANK_REPS); the model sees int(rank)
   impl     {'out': [(kind, w, l, elim|None, votes_for_winner, votes_for_loser, difficulty)] | None, 'exc': str|None,
@@ -330,6 +332,24 @@ def run_before(case, contest, cvrs):
             n2 = sum(kk for _, kk in case.get("c2types") or [])
             ct = U.Contest("c2", list(names), names[b["winner"]], max(1, n2))
             Rm.compute_raire_assertions(ct, cvrs, names[b["winner"]], asn_fn(b["bp"], case["exact"]), False, agap=0)
+        elif k in ("same_contest", "same_dict"):
+            # the SAME Contest object (tot_ballots / winner re-assigned) first used with a DIFFERENT profile over the same
+            # candidates (corrected CVRs after a re-scan); 'same_dict' also re-uses the cvrs dict object, refilled in place
+            c2 = dict(case, types=b["types"], nocontest=0, tot=b["tot"], winner=b["winner"], order=None, c2types=None)
+            _, cv = build_inputs(c2)
+            saved = dict(cvrs)
+            if k == "same_dict":
+                cvrs.clear()
+                cvrs.update(cv)
+                cv = cvrs
+            contest.tot_ballots, contest.winner = b["tot"], names[b["winner"]]
+            try:
+                Rm.compute_raire_assertions(contest, cv, names[b["winner"]], asn_fn(b["bp"], case["exact"]), False, agap=0)
+            finally:
+                contest.tot_ballots, contest.winner = case["tot"], names[case["winner"]]
+                if k == "same_dict":
+                    cvrs.clear()
+                    cvrs.update(saved)
         elif k == "case":          # a whole other case (replay of "the call made just before in the same process")
             c2 = b["case"]
             ct, cv = build_inputs(c2)
@@ -523,10 +543,12 @@ def gen_before(rng, case, force=False):
         case["c2types"] = gen_profile(rng, n, maxb=max(1, sum(k for _, k in case["types"])))[0]
     seq = []
     for _ in range(rng.randint(1, 3)):
-        k = rng.choice(["other_cvrs", "other_cvrs", "other_fn", "other_winner"] + (["other_contest"] * 2 if case.get("c2types") else []))
-        if k == "other_cvrs":
+        k = rng.choice(["other_cvrs", "other_cvrs", "other_fn", "other_winner", "same_contest", "same_contest", "same_dict"]
+                       + (["other_contest"] * 2 if case.get("c2types") else []))
+        if k in ("other_cvrs", "same_contest", "same_dict"):
             t2, _ = gen_profile(rng, n, maxb=30)
-            seq.append({"kind": k, "types": t2, "tot": sum(kk for _, kk in t2), "winner": rng.randrange(n), "bp": rng.random() < 0.5})
+            seq.append({"kind": k, "types": t2, "tot": sum(kk for _, kk in t2) + (rng.randint(1, 10) if rng.random() < 0.3 else 0),
+                        "winner": rng.randrange(n), "bp": rng.random() < 0.5})
         elif k == "other_fn":
             seq.append({"kind": k})
         elif k == "other_winner":
